@@ -475,6 +475,20 @@ def dump(in_db, f, **options):
             ",".join(env_var["accessNodes"]))).encode(dbc_export_encoding, ignore_encoding_errors))
 
 
+def check_numeric_attribute(defines, attribute, value):
+    # type: (typing.Mapping[str, canmatrix.Define], str, str) -> None
+    """Raise ValueError if a value given for an INT, HEX or FLOAT attribute is no such number.
+
+    Called inside the per-line try/except of load: a line of the wrong field type is skipped like any other
+    malformed line instead of replacing a good value."""
+    define = defines.get(attribute)
+    if define is None or define.type not in ("INT", "HEX", "FLOAT"):
+        return
+    number = float(value)
+    if define.type != "FLOAT" and not number.is_integer():
+        raise ValueError("attribute %s needs an integer, got %s" % (attribute, value))
+
+
 class _FollowUps(object):
     NOTHING, SIGNAL_COMMENT, FRAME_COMMENT, BOARD_UNIT_COMMENT, GLOBAL_COMMENT = range(5)
 
@@ -848,12 +862,14 @@ def load(f, **options):  # type: (typing.IO, **typing.Any) -> canmatrix.CanMatri
                 if tempba.group(1).strip().startswith("BO_ "):
                     regexp = re.compile(r"^BA_ +\"(.+?)\" +BO_ +(\d+) +(.+) *; *")
                     temp = regexp.match(decoded)
+                    check_numeric_attribute(db.frame_defines, temp.group(1), temp.group(3))
                     get_frame_by_id(canmatrix.ArbitrationId.from_compound_integer(int(temp.group(2)))).add_attribute(
                         temp.group(1), temp.group(3))
                 elif tempba.group(1).strip().startswith("SG_ "):
                     regexp = re.compile(r"^BA_ +\"(.+?)\" +SG_ +(\d+) +(\S+) +(.+) *; *")
                     temp = regexp.match(decoded)
                     if temp is not None:
+                        check_numeric_attribute(db.signal_defines, temp.group(1), temp.group(4))
                         get_frame_by_id(canmatrix.ArbitrationId.from_compound_integer(int(temp.group(2)))).signal_by_name(
                             temp.group(3)).add_attribute(temp.group(1), temp.group(4))
                 elif tempba.group(1).strip().startswith("EV_ "):
@@ -864,6 +880,7 @@ def load(f, **options):  # type: (typing.IO, **typing.Any) -> canmatrix.CanMatri
                 elif tempba.group(1).strip().startswith("BU_ "):
                     regexp = re.compile(r"^BA_ +\"(.*?)\" +BU_ +(\S+) +(.+) *; *")
                     temp = regexp.match(decoded)
+                    check_numeric_attribute(db.ecu_defines, temp.group(1), temp.group(3))
                     db.ecu_by_name(
                         temp.group(2)).add_attribute(
                         temp.group(1),
@@ -873,6 +890,7 @@ def load(f, **options):  # type: (typing.IO, **typing.Any) -> canmatrix.CanMatri
                         r"^BA_ +\"([A-Za-z0-9\-_]+)\" +(\".*\"|[\"\S\-\.]+) *; *")
                     temp = regexp.match(decoded)
                     if temp:
+                        check_numeric_attribute(db.global_defines, temp.group(1), temp.group(2))
                         db.add_attribute(temp.group(1), temp.group(2))
 
             elif decoded.startswith("SIG_GROUP_ "):
